@@ -1045,3 +1045,6 @@ def shrink(line):
                 for cut in (len(b) // 2, len(b) - 1):
                     yield " ".join(w[:j] + [hx(b[:cut])] + w[j + 1:])
                 yield " ".join(w[:j] + [hx(b[1:])] + w[j + 1:])
+
+
+KNOWN_MUST_MATCH_MODEL = True   # inside a known finding's region the observation must still equal the model's (which reproduces the listed defect); see lib/vf/run.py
